@@ -598,7 +598,7 @@ def _showr(r):
     "component of the node (row-major over value shape then free-index dimensions, free indices ordered by count) to the "
     "component of its operand that UFL's semantics names - fixed indices, free indices bound by the multi-index (in any order, "
     "i.e. including transpositions) and free indices passed through",
-    min_instances=6,
+    min_instances=7,
 )
 def index_maps(repo, res):
     import itertools
@@ -640,6 +640,7 @@ def index_maps(repo, res):
         ("A[1, i7] with A of shape (2,3) and a free index 4", (2, 3), (4,), (2,), [("fixed", 1), ("free", 7)]),
         ("A[i7, i2] (transposition: index counts in reverse order)", (2, 3), (), (), [("free", 7), ("free", 2)]),
         ("A[i3, 0, i1] with A of shape (2,2,3)", (2, 2, 3), (), (), [("free", 3), ("fixed", 0), ("free", 1)]),
+        ("A[i7] with A of shape (3,) carrying free indices 9 and 2", (3,), (2, 9), (2, 2), [("free", 7)]),
     ]
     for label, sh2, fi2, fid2, mi_spec in icases:
         key = f"{f.key}:{label}"
